@@ -44,6 +44,8 @@ type FuncContract struct {
 	TrustReason string
 	Loops       map[int][]Clause
 	LoopEntry   map[int][]Clause    // checked when the loop is entered only (not an invariant)
+	LocalOnly   bool                // callee preconditions are assumed, not checked; no call/return covers
+	LoopStep    map[int][]Clause    // per-iteration obligations: old(e) = value at the head of the current iteration
 	CallAsserts map[string][]Clause // key "callee#k"
 	Crash       []Clause            // crash invariants: asserted after every durable write
 	Observe     []Clause            // named entry-state expressions reported in counterexample models
@@ -100,7 +102,7 @@ type Contracts struct {
 }
 
 var headerKW = map[string]bool{"addressable": true, "ghostvar": true, "uf": true, "func": true, "interface": true, "extern": true, "model": true, "spec": true, "lemma": true, "axiom": true}
-var clauseKW = map[string]bool{"noinference": true, "observe": true, "requires": true, "ensures": true, "modifies": true, "safe": true, "trusted": true, "loop": true, "at": true, "crash_invariant": true, "fresh": true}
+var clauseKW = map[string]bool{"noinference": true, "localonly": true, "observe": true, "requires": true, "ensures": true, "modifies": true, "safe": true, "trusted": true, "loop": true, "at": true, "crash_invariant": true, "fresh": true}
 
 type rawItem struct {
 	line int
@@ -162,7 +164,7 @@ func parseContracts(text string) (c *Contracts, err error) {
 		kw, rest := splitFirst(it.text)
 		switch kw {
 		case "func", "interface", "extern":
-			fc := &FuncContract{Kind: kw, LoopEntry: map[int][]Clause{}, Loops: map[int][]Clause{}, CallAsserts: map[string][]Clause{}, Line: it.line}
+			fc := &FuncContract{Kind: kw, LoopEntry: map[int][]Clause{}, LoopStep: map[int][]Clause{}, Loops: map[int][]Clause{}, CallAsserts: map[string][]Clause{}, Line: it.line}
 			parseFuncHeader(fc, rest, it.line)
 			if _, dup := c.Funcs[fc.Key]; dup {
 				panic(parseErr(fmt.Sprintf("line %d: duplicate contract for %s", it.line, fc.Key)))
@@ -282,6 +284,8 @@ func parseContracts(text string) (c *Contracts, err error) {
 			}
 		case "noinference":
 			cur.NoInfer = true
+		case "localonly":
+			cur.LocalOnly = true
 		case "safe":
 			cur.Safe = true
 		case "trusted":
@@ -294,12 +298,21 @@ func parseContracts(text string) (c *Contracts, err error) {
 		case "loop":
 			// loop N invariant label: expr
 			f := strings.Fields(rest)
-			if len(f) < 3 || (f[1] != "invariant" && f[1] != "entry") {
-				panic(parseErr(fmt.Sprintf("line %d: expected 'loop N invariant|entry label: expr'", it.line)))
+			if len(f) < 3 || (f[1] != "invariant" && f[1] != "entry" && f[1] != "step") {
+				panic(parseErr(fmt.Sprintf("line %d: expected 'loop N invariant|entry|step label: expr'", it.line)))
 			}
 			n, e := strconv.Atoi(f[0])
 			if e != nil {
 				panic(parseErr(fmt.Sprintf("line %d: bad loop ordinal", it.line)))
+			}
+			if f[1] == "step" {
+				r := strings.TrimSpace(rest[strings.Index(rest, "step")+len("step"):])
+				lab, src := splitLabel(r)
+				if lab == "" {
+					lab = fmt.Sprintf("L%d", it.line)
+				}
+				cur.LoopStep[n] = append(cur.LoopStep[n], Clause{Label: lab, Src: src, E: parseExpr(src, it.line), Line: it.line})
+				continue
 			}
 			if f[1] == "entry" {
 				r := strings.TrimSpace(rest[strings.Index(rest, "entry")+len("entry"):])
